@@ -50,24 +50,26 @@ def _val(fn, *a):
     return {"l": limbs(v), "h": fhex(v), "r": ""}
 
 
-def _ext(fn, scale):
-    """time bounds reported by the public API, in ticks (scale is a power of two: the division is exact)."""
+def _ext(fn, scale, origin=0.0):
+    """time bounds reported by the public API, in ticks counted from origin (scale is a power of two and the bounds
+    lie within a few ticks of the origin: subtraction and division are exact)."""
     try:
         with warnings.catch_warnings():
             warnings.simplefilter("ignore")
             b = fn()
-        return [limbs(b[0] / scale), limbs(b[2] / scale)]
+        return [limbs((b[0] - origin) / scale), limbs((b[2] - origin) / scale)]
     except Exception:
         return [_NONFINITE, _NONFINITE]
 
 
-def _extents(g, tb, fb, scale):
-    return {"raw": _ext(lambda: compute_bounds(g), scale),
-            "buf": _ext(lambda: compute_bounds(buffer_geometry(g, time_buffer=tb, freq_buffer=fb)), scale)}
+def _extents(g, tb, fb, scale, origin=0.0):
+    return {"raw": _ext(lambda: compute_bounds(g), scale, origin),
+            "buf": _ext(lambda: compute_bounds(buffer_geometry(g, time_buffer=tb, freq_buffer=fb)), scale, origin)}
 
 
-def _session(mk, offsets, tb, fb, scale):
-    """mk(d) -> (g1, g2) shifted by offset d; offsets[0] == 0."""
+def _session(mk, offsets, tb, fb, scale, origins=None):
+    """mk(d) -> (g1, g2) shifted by offset d; the first offset is where both orders and the self comparisons are observed.
+    origins[k]: the time the extents of the k-th pair are counted from (default 0)."""
     g1, g2 = mk(offsets[0])
     v12 = _val(compute_affinity, g1, g2, tb, fb)
     run = {"v12": v12,
@@ -78,23 +80,25 @@ def _session(mk, offsets, tb, fb, scale):
     for k, d in enumerate(offsets):
         a, b = (g1, g2) if k == 0 else mk(d)
         run["sh"].append({"v": v12 if k == 0 else _val(compute_affinity, a, b, tb, fb),
-                          "e1": _extents(a, tb, fb, scale), "e2": _extents(b, tb, fb, scale)})
+                          "e1": _extents(a, tb, fb, scale, origins[k] if origins else 0.0),
+                          "e2": _extents(b, tb, fb, scale, origins[k] if origins else 0.0)})
     return run
 
 
 # ---------------------------------------------------------------- lattice sessions
-def _shift_lat(g, d):
+def _map_lat(g, f):
+    """apply f to every time coordinate of a geometry record."""
     def pts(s):
-        return [[p[0] + d, p[1]] for p in s]
+        return [[f(p[0]), p[1]] for p in s]
     k, c = g["type"], g["coordinates"]
     if k == "TimeStamp":
-        c2 = c + d
+        c2 = f(c)
     elif k == "TimeInterval":
-        c2 = [c[0] + d, c[1] + d]
+        c2 = [f(c[0]), f(c[1])]
     elif k == "Point":
-        c2 = [c[0] + d, c[1]]
+        c2 = [f(c[0]), c[1]]
     elif k == "BoundingBox":
-        c2 = [c[0] + d, c[1], c[2] + d, c[3]]
+        c2 = [f(c[0]), c[1], f(c[2]), c[3]]
     elif k in ("LineString", "MultiPoint"):
         c2 = pts(c)
     elif k in ("Polygon", "MultiLineString"):
@@ -104,12 +108,27 @@ def _shift_lat(g, d):
     return {"type": k, "coordinates": c2}
 
 
+def _shift_lat(g, d):
+    return _map_lat(g, lambda t: t + d)
+
+
 def _lattice(case):
     runs = []
     for tu in TIME_UNITS:
         mk = lambda d, tu=tu: (build(_shift_lat(case["g1"], d), tu), build(_shift_lat(case["g2"], d), tu))
         runs.append(_session(mk, case["ds"], case["tb"] * tu, case["fb"] * FREQ_UNIT, tu))
     return {"runs": runs}
+
+
+FAR_UNIT = 2.0 ** -10          # far sessions: ticks of 2^-10 s counted from an origin of 2^E s (exact: <= 37 significant bits)
+
+
+def _far(case):
+    origins = [0 if e == 0 else 2 ** e for e in case["bases"]]
+    shift = {o: int(o / FAR_UNIT) for o in origins}
+    mk = lambda o: (build(_shift_lat(case["g1"], shift[o]), FAR_UNIT), build(_shift_lat(case["g2"], shift[o]), FAR_UNIT))
+    return {"runs": [_session(mk, origins, case["tb"] * FAR_UNIT, case["fb"] * FREQ_UNIT, FAR_UNIT,
+                              origins=[float(o) for o in origins])]}
 
 
 # ---------------------------------------------------------------- random sessions (arbitrary doubles)
@@ -212,14 +231,59 @@ def _random(case):
     return {"runs": [_session(mk, offsets, tb, fb, 1.0)]}
 
 
+FAR_KINDS_1 = ["TimeStamp", "TimeInterval"]
+FAR_KINDS_2 = ["TimeStamp", "TimeInterval", "BoundingBox", "Polygon", "MultiPolygon"]
+
+
+def _random_far(case):
+    """millisecond events 2^18..2^27 s along the time axis.  Times and the time buffer are multiples of 2^-20 s and the
+    origins whole seconds, so origin + time is exact and the same pair is observed at every origin; extents are reported
+    in ticks of 2^-10 s counted from the origin."""
+    rng = random.Random(case["seed"])
+    k1, k2 = case["k1"], case["k2"]
+    q = lambda t: round(t * 2 ** 20) / 2 ** 20
+    tb, fb = q(rng.uniform(0.0005, 0.003)), rng.uniform(50.0, 500.0)
+    for _ in range(50):
+        a0 = rng.uniform(0.004, 0.008)
+        c1 = _rand_coords(rng, k1, a0, a0 + rng.uniform(0.0005, 0.008), 1000.0, 4000.0)
+        b0 = a0 + rng.uniform(-0.002, 0.006 if case["mode"] == "near" else 0.012)
+        c2 = c1 if case["mode"] == "same" else _rand_coords(rng, k2, b0, b0 + rng.uniform(0.0005, 0.008), 1000.0, 4000.0)
+        c1 = _map_lat({"type": k1, "coordinates": c1}, q)["coordinates"]
+        c2 = _map_lat({"type": k2, "coordinates": c2}, q)["coordinates"]
+        try:
+            ok = all(geometry_to_shapely(_mk(k, c)).is_valid for k, c in ((k1, c1), (k2, c2)))
+        except Exception:
+            ok = False
+        if ok:
+            break
+    else:
+        raise RuntimeError("no valid random geometry")
+    origins = [float(rng.randrange(2 ** 18, 2 ** 27)), 0.0, float(2 ** rng.randrange(18, 28))]
+    mk = lambda off: (_mk(k1, _shift_coords(k1, c1, off) if off else c1), _mk(k2, _shift_coords(k2, c2, off) if off else c2))
+    return {"runs": [_session(mk, origins, tb, fb, FAR_UNIT, origins=origins)]}
+
+
 def execute(case):
+    if case["kind"] == "rnd" and case["mode"].startswith("axis-"):
+        case = dict(case, mode=case["mode"][5:])
+        return _random_far(case)
     if case["kind"] == "lat":
         return _lattice(case)
+    if case["kind"] == "far":
+        return _far(case)
     return _random(case)
 
 
 def random_cases(rng, tier):
     n = 1500 if tier == "quick" else 12000
+    for i in range(n // 3):                          # short events far along the time axis (time-only pairs)
+        mode = rng.choice(["same", "near", "near", "near", "far"])
+        k1 = rng.choice(FAR_KINDS_1)
+        k2 = k1 if mode == "same" else rng.choice(FAR_KINDS_2)
+        if mode != "same" and rng.random() < 0.5:
+            k1, k2 = k2, k1
+        yield {"kind": "rnd", "seed": rng.randrange(1, 2**31 - 1), "k1": k1, "k2": k2, "mode": "axis-" + mode,
+               "tb": 1, "fb": 1, "ds": [0, 1]}
     for i in range(n):
         k1 = rng.choice(KINDS)
         mode = rng.choice(["same", "same", "near", "near", "near", "far"])
